@@ -647,7 +647,28 @@ NOT_TABULATED = {
 }
 
 
-def tokenizer_tables(ast, which, known=None):
+def _fold_list(ref_helpers, present):
+    """reviewed helpers that are straight-line, take no arguments and are no longer methods -> [(name, actions)]"""
+    out = []
+    for name, cells in (ref_helpers or {}).items():
+        if name in present or not cells or len(cells) != 1:
+            continue
+        c = cells[0]
+        if c.get("guards") or c.get("acq") or c.get("ret") not in ("()",) or not c.get("actions"):
+            continue
+        body = tuple((a, tuple(str(x) for x in args)) for a, args in c["actions"])
+        words = set()
+        for _, args in body:
+            for x in args:
+                for m in re.finditer(r"(?<![\w.])([a-z_][a-z_0-9]*)\b(?![(.:])", x):
+                    words.add(m.group(1))
+        if words - {"true", "false", "self"}:
+            continue  # mentions a parameter
+        out.append((name, body))
+    return out
+
+
+def tokenizer_tables(ast, which, known=None, ref_helpers=None):
     """all tables of one tokenizer: step, eof_step (projected), helpers and char-ref machine (normal forms).
     known: names of the helper / char-ref methods of the reviewed reference.  A *private* method that is not among
     them (a helper extracted by a refactoring) is inlined at its call sites instead of being tabulated, so that the
@@ -667,7 +688,7 @@ def tokenizer_tables(ast, which, known=None):
         prims = {n for n in M.methods if n not in STEP_LIKE} - accessors
     new_private = set()
     if known is not None:
-        new_private = {n for n, it in M.methods.items() if n not in known and n not in STEP_LIKE and n not in NOT_TABULATED and (it.get("vis") or "") == "" and not it.get("trait")}
+        new_private = {n for n, it in M.methods.items() if n not in known and n not in STEP_LIKE and n not in NOT_TABULATED and (it.get("vis") or "") in ("", "pub(crate)", "pub(super)", "pub(self)") and not it.get("trait")}
         prims = set(prims) - new_private
     states = enum_values(M.enums, "XmlState" if "XmlState" in M.enums else "State")
     helpers = {}
@@ -685,8 +706,11 @@ def tokenizer_tables(ast, which, known=None):
                 and name not in ("run", "feed", "end", "process_token", "process_token_and_continue"):
             inline.setdefault(name, it)
     out = {"machine": M, "states": [showv(s) for s in states], "classes": classes, "lits": sorted(lits), "raw": {}, "errors": {}, "inlined_new": sorted(new_private)}
+    fold = _fold_list(ref_helpers, set(M.methods))
+    out["folded"] = sorted(n for n, _ in fold)
     for fn in STEP_LIKE:
         cfg = Config(acquire=make_acquire(samples), primitives=prims, inline=dict(inline), guards=guards, samples=samples, accessors=accessors, consts=CONSTS)
+        cfg.fold = fold
         raw = tabulate(M, fn, cfg, classes, states)
         out["raw"][fn] = raw
         out[fn] = {st: (project(c) if c is not None else None) for st, c in raw.items()}
@@ -699,9 +723,13 @@ def tokenizer_tables(ast, which, known=None):
             c2, _ = char_cuts([it["body"]] + [M.methods[n]["body"] for n in new_private])
             cl2 = classes_from_cuts(c2)
             cfg = Config(acquire={}, primitives=set(M.methods) - {name} - new_private, inline={n: dict(M.methods[n], new_private=True) for n in new_private}, guards=guards, samples=[], accessors=accessors, consts=CONSTS)
+            cfg.fold = fold
             hp[name] = project_fn(tabulate_fn(it, cfg, cl2))
         except Unsupported as e:
             out["errors"][name] = str(e)
+    for n, _ in fold:
+        # the folded helper keeps its reviewed meaning: that body is exactly what is recognised at the former call sites
+        hp[n] = from_json({n: ref_helpers[n]})[n]
     out["helpers"] = hp
     # the character reference sub-tokenizer
     CR = Machine.__new__(Machine)
@@ -711,7 +739,7 @@ def tokenizer_tables(ast, which, known=None):
     cr = {}
     new_cr = set()
     if known is not None:
-        new_cr = {n for n, it in crm.items() if n not in known and (it.get("vis") or "") == "" and not it.get("trait")}
+        new_cr = {n for n, it in crm.items() if n not in known and (it.get("vis") or "") in ("", "pub(crate)", "pub(super)", "pub(self)") and not it.get("trait")}
         out["inlined_new"] = sorted(set(out["inlined_new"]) | {"char_ref::" + n for n in new_cr})
     for name, it in sorted(crm.items()):
         if name in new_cr:
